@@ -21,11 +21,14 @@ EXPLANATION = (
 DECLINED = ["'smallest unused rank' (loop arithmetic over the sorted list)", "repeated revive histories"]
 ASSUMPTIONS = ["pthread mutex/cond semantics"]
 RULES_DOC = dict(common.SHARED_DOC)
+RULES_DOC["X8"] = common.X8_DOC
+RULES_DOC["X7"] = common.X7_DOC
 RULES_DOC["X4"] = common.X4_DOC
 RULES_DOC["R7"] = "a scheduler is marked used = ABTI_SCHED_MAIN before it is installed as a stream's main scheduler (every store of a scheduler into ABTI_xstream::p_main_sched is preceded on its path by that store on the same scheduler): a running main scheduler cannot be given to a second stream or freed"
 RULES_DOC["X5"] = common.X5_DOC
 RULES_DOC["R8"] = "rank list insertion: on every path of xstream_add_xstream_list the inserted stream's forward link is assigned, and its backward link is assigned unless it becomes the head (a stream re-inserted by ABT_xstream_set_rank carries no stale link: no cycle, no walk into freed memory)"
 RULES_DOC["R9"] = "= C06.R1/R3/R4: the callback that suspends a ULT for a main-scheduler replacement counts it on the pool it belongs to after request handling (a stream whose pool count is off by one can never be joined, its rank is never returned)"
+RULES_DOC["R11"] = "user-supplied ranks are non-negative: ABT_xstream_set_rank and ABT_xstream_create_with_rank reach the list update only when the governing argument tests admit 0, 1, ... and reject -1 (the internal any-rank value) and below"
 RULES_DOC["R10"] = "the thread-local 'current stream' pointer is cleared wherever the stream it names is given up: after ABT_finalize freed the primary stream, and when a stream's OS thread leaves its root loop (an OS thread that once was a stream must be an external thread afterwards)"
 RULES_DOC.update({
     "R1": "stream list mutations, rank stores, num_xstreams updates and list scans hold xstream_list_lock",
@@ -507,7 +510,38 @@ def rule_R10(P, rep):
     rep.need(n >= 2, "only %d stream hand-backs found" % n)
 
 
+def rule_R11(P, rep):
+    """Ranks given by the user are non-negative: -1 is the internal 'pick any free rank' value of
+    xstream_set_new_rank, and the rank list is sorted with the primary (rank 0) at its head."""
+    from abtverif import ctrldep
+    OPS = {"<": lambda x, y: x < y, "<=": lambda x, y: x <= y, ">": lambda x, y: x > y, ">=": lambda x, y: x >= y,
+           "==": lambda x, y: x == y, "!=": lambda x, y: x != y}
+    n = 0
+    for fn, callees in (("ABT_xstream_set_rank", {"xstream_change_rank"}), ("ABT_xstream_create_with_rank", {"xstream_create"})):
+        F = P.fn(fn, "src/stream.c")
+        rk = [p_["n"] for p_ in F.params if p_["t"].strip() == "int"]
+        rep.need(len(rk) == 1, "%s: rank parameter not found" % fn)
+        R = rk[0]
+        sites = [i for _b, i in F.calls(callees)]
+        rep.need(sites, "%s does not reach %s" % (fn, sorted(callees)))
+        for i in sites:
+            tests = []
+            for lab, val, _a in ctrldep.conditions(F, i):
+                m = re.match(r"^%s (<|<=|>|>=|==|!=) (-?\d+)$" % re.escape(R), lab)
+                if m and val is not None:
+                    tests.append((m.group(1), int(m.group(2)), val))
+            admitted = [x for x in (-2, -1, 0, 1) if all(OPS[op](x, k) == val for op, k, val in tests)]
+            n += 1
+            rep.ob("R11", "%s accepts exactly the non-negative ranks" % fn, admitted == [0, 1],
+                   "of the ranks -2, -1, 0, 1 the argument check lets %s through (governing tests %s): a negative rank sorts before "
+                   "the primary stream and the next rank-less create picks a rank that is already taken" % (admitted, tests),
+                   loc=F.loc(i), site="%s/rank-range" % fn)
+    rep.need(n >= 2, "only %d user-rank entry points" % n)
+
+
 def run(P, rep, tier):
+    common.rule_X8(P, rep)
+    common.rule_X7(P, rep, records=('ABTI_xstream',))
     common.rule_widths(P, rep, [('ABTI_global', 'num_xstreams'), ('ABTI_xstream', 'rank')])
     common.rule_X4(P, rep)
     common.run_shared(P, rep, which=("X2",))
@@ -519,3 +553,4 @@ def run(P, rep, tier):
     rule_R8(P, rep)
     common.borrow(rep, P, C06.rule_R1_R3_R4, "R9")
     rule_R10(P, rep)
+    rule_R11(P, rep)
